@@ -92,6 +92,10 @@ class NetSim:
                 continue
             if k.startswith("frag") and not (typ in (148, 149, 150) and len(d) >= 8 and (d[7] == int(k[4:]) or (typ == 150 and int(k[4:]) == 1))):
                 continue
+            if "count" in r:                 # the rule applies to the first `count` matching packets only
+                if r["count"] <= 0:
+                    continue
+                r["count"] -= 1
             return r.get("fate", "P")
         return "D"
 
@@ -221,7 +225,8 @@ class NetSim:
 
     def run(self, jobs, real_timeout=None, scripts=None):
         self.jobs = jobs
-        self.scripts = {k: sorted(v, key=lambda x: x[0]) for k, v in (scripts or {}).items()}
+        t0 = self.s.boot_t          # script times are relative to the start of the run
+        self.scripts = {k: sorted([(t0 + at, fn) for (at, fn) in v], key=lambda x: x[0]) for k, v in (scripts or {}).items()}
         for name in self.objs:
             self.s.spawn(self._loop(name), name)
         errs = self.s.run()
@@ -270,8 +275,9 @@ def job_write(src_name, dst, mtype, msg, **kw):
         st = ns.structs
         t0 = ns.s.now
         hdr = st.RF24NetworkHeader(dst, mtype)
+        jid = job.get("jid", ns.turn)
         ns.ev.append(dict(k="call", n=name, api="write", to=dst, type=mtype if isinstance(mtype, int) else ord(mtype[0]),
-                          id=hdr.frame_id, msg=list(msg), t=t0 // 1000, job=ns.turn, src=o.node_address,
+                          id=hdr.frame_id, msg=list(msg), t=t0 // 1000, job=jid, src=o.node_address,
                           chk=list(job.get("chk", ["C07"])), level=-1, lvl=o.multicast_level,
                           tx_timeout=o.tx_timeout, route_timeout=o.route_timeout))
         exc, r = "none", False
@@ -284,7 +290,7 @@ def job_write(src_name, dst, mtype, msg, **kw):
             raise
         except Exception as e:  # noqa
             exc = type(e).__name__
-        ns.rec_ret(name, "write", exc, res=bool(r), job=ns.turn, dt=(ns.s.now - t0) // 1000)
+        ns.rec_ret(name, "write", exc, res=bool(r), job=jid, dt=(ns.s.now - t0) // 1000)
     d = dict(n=src_name, fn=fn)
     d.update(kw)
     return d
